@@ -727,6 +727,28 @@ func summaryMatch(p *Prog, g Guard, cond ssa.Value, env map[*ssa.Phi]ssa.Value) 
 		if h == nil || h.Signature.Results().Len() != 1 {
 			return 0, false, ""
 		}
+		// a boolean expression helper ("return a && !b"): the fact holds on
+		// the caller's edge for the value that implies it
+		if rets := Returns(h); len(rets) == 1 {
+			rv := ReturnOperand(rets[0], 0)
+			if _, isConst := ConstBool(rv); !isConst {
+				for _, want := range []bool{true, false} {
+					holds := false
+					WithSubst(FrameSubst(c.Common(), h), func() {
+						summaryDepth++
+						defer func() { summaryDepth-- }()
+						holds = boolImplies(p, h, g, rv, want, 0)
+					})
+					if holds {
+						if want {
+							return fin(0), true, FuncName(h)
+						}
+						return fin(1), true, FuncName(h)
+					}
+				}
+				return 0, false, ""
+			}
+		}
 		for _, want := range []bool{true, false} {
 			want := want
 			n := 0
@@ -821,4 +843,55 @@ func helperAlwaysErrors(c *ssa.Call, idx int) bool {
 		}
 	}
 	return true
+}
+
+
+// boolImplies: inside fn, "v evaluates to want" implies the fact g guards.
+// v is a condition g matches directly, a negation, or a short-circuit
+// conjunction/disjunction lowered to a phi: the phi takes the value want only
+// along edges whose operand is not the opposite constant, and along each such
+// edge either the operand itself implies the fact or the edge's source block
+// is only reachable past a test that does.
+func boolImplies(p *Prog, fn *ssa.Function, g Guard, v ssa.Value, want bool, depth int) bool {
+	if depth > 4 {
+		return false
+	}
+	switch x := v.(type) {
+	case *ssa.Const:
+		return false
+	case *ssa.UnOp:
+		if x.Op == token.NOT {
+			return boolImplies(p, fn, g, x.X, !want, depth+1)
+		}
+		return false
+	case *ssa.Phi:
+		n := 0
+		for i, e := range x.Edges {
+			if b, isB := ConstBool(e); isB {
+				if b != want {
+					continue
+				}
+				// the constant wanted value: the source block itself must be guarded
+			} else if boolImplies(p, fn, g, e, want, depth+1) {
+				n++
+				continue
+			}
+			pred := x.Block().Preds[i]
+			res := CutReach(p, fn, g, pred)
+			if res.Reachable || len(res.Instances) == 0 {
+				return false
+			}
+			n++
+		}
+		return n > 0
+	}
+	s, ok := MatchCond(g, v, nil)
+	if !ok {
+		// a nested helper
+		if s2, ok2, _ := summaryMatch(p, g, v, nil); ok2 {
+			return (s2 == 0) == want
+		}
+		return false
+	}
+	return (s == 0) == want
 }
